@@ -25,6 +25,26 @@ CLAIMED = {
    text="The only scheduler in this codebase, hash iteration order, is behind a seam (patched foldhash): every corpus item is compiled, key-generated, run and proven under N seeded iteration orders in-process and in M fresh processes with natural hasher randomness; all digests (ops, numbering, maps, preprocessed columns, table order, degrees, commitment, traces, proof bytes) must be equal. A failing item is minimised and replayed from (program, seedA, seedB).",
    note="rayon is compiled out (thread scheduling not controlled). Global foldhash seed is constant in the simulator build; per-hasher seeds come from the run's stream.",
    technique="deterministic simulation: seeded scheduler over hash-iteration orders + fresh-process replays, digest equality"),
+ "C01": dict(level="fault_enumeration", ref="DESIGN §5 C01",
+   text="Prover, transport and both verifiers run in one process: an honest uni-STARK or batch-STARK proof is serialized to a tree, every numeric leaf and every public value is corrupted one fault at a time (five fault kinds), and the native verifier and the in-circuit verifier (fixed circuit for value leaves, circuit rebuilt from the received proof for usize leaves) must agree, over a swarm of proof shapes and FRI parameter sets.",
+   note="Native p3 verifiers are the oracle. Panics count as reject here (they are C15's observable). Universes U-KB4/U-BB4, non-ZK, arity-2 MMCS.",
+   technique="deterministic simulation with message-fault enumeration between prover and two verifier nodes"),
+ "C05": dict(level="exploration", ref="DESIGN §5 C05",
+   text="Stateful component driven through seeded operation histories and compared step by step with a small executable reference model (the native DuplexChallenger) in six configurations, recompose table on/off, seeded hash order; a failing history is minimised to a few operations.",
+   note="p3_challenger::DuplexChallenger is the reference model; observed values are public inputs so the builder cannot fold them.",
+   technique="deterministic simulation: seeded operation histories vs executable reference model"),
+ "C06": dict(level="fault_enumeration", ref="DESIGN §5 C06",
+   text="Byzantine prover at witness-generation depth: the permutation closure deviates on one call in its non-exposed (capacity) or exposed (rate) output lanes, or a decomposition hint deviates; the rest of the run is honest, the forged traces go through the real prover and verifier; an accepted proof whose sampled challenges differ from the native transcript is a violation. A fault-free control arm runs first.",
+   note="U-KB4/U-BB4 extension-degree challenger with Poseidon2 and recompose tables. Known findings (capacity deviation accepted) are listed in known_findings.json.",
+   technique="deterministic simulation with a byzantine prover (deviating permutation / hints), real prove + verify"),
+ "C12": dict(level="fault_enumeration", ref="DESIGN §5 C12",
+   text="Byzantine hint executors: binary decomposition emitting the bits of x + p, extension decomposition moving mass between coefficients, inside gadget circuits and challenger histories; forged traces are proven and verified; an accepted proof with a non-canonical decomposition is a violation.",
+   note="Only decompositions reachable through Op::Hint are faulted. Known findings listed in known_findings.json.",
+   technique="deterministic simulation with byzantine hint executors, real prove + verify"),
+ "C14": dict(level="fault_enumeration", ref="DESIGN §5 C14",
+   text="For every proof shape of C01's swarm: packed lengths equal the circuit's, every value leaf of the serialized proof must move at least one packed position (leaf to position map), and corrupting any single position of the packed public or private vector must make the circuit unsatisfiable.",
+   note="Merkle sibling digests travel as private data and are covered by C01/C08. PoW-witness positions are compared natively in C01 instead.",
+   technique="deterministic simulation with per-position message faults on the packed wire format"),
 }
 
 NOT_YET = {}
